@@ -107,6 +107,11 @@ def run(ctx):
     from .c06 import entries_independent
 
     entries_independent(ctx.sub("DEP-C06"), "R3")
+    # "adding a signature to a stored file never invalidates or alters the signatures already
+    # present": the signer writes its own entry only (C09-R2, re-evaluated here)
+    from .c09 import sign_signable_rules
+
+    sign_signable_rules(ctx.sub("DEP-C09"), "R2")
 
 
 def _inplace_signers(ctx, rule="R3"):
